@@ -14,5 +14,5 @@ CONSTANTS
   MsgSet <- MsgPlain
 CONSTRAINT Bound
 SYMMETRY Sym
-INVARIANTS HandedWasAccepted NoDuplicate PerPipeOrder NoEcho NoEchoStar RoutedRight DeliveredArrived AtMostOnePeer ReadyNotBusy ReadyDistinct QueuesBounded CloseUnblocks NoStuckSend
+INVARIANTS HandedWasAccepted NoDuplicate PerPipeOrder NoEcho NoEchoStar RoutedRight DeliveredArrived AtMostOnePeer ReadyNotBusy ReadyDistinct QueuesBounded CloseUnblocks NoStuckSend AllHandedAtRest
 CHECK_DEADLOCK FALSE
